@@ -710,10 +710,23 @@ def rule_f(ck, u, ub, so, P, engf):
             facts = eng2.path_facts(p) + inv
             g = p.calls('source_get_chunk_atmost')
             s = p.calls('sink_put_chunk')
+            if not g and not s:
+                # a refusal before anything is asked of a driver: an auxiliary window without room - a negative result
+                r_ = strip_cast(p.ret) if p.ret is not None else None
+                if not (r_ is not None and sym.is_c(r_) and r_[1] < 0):
+                    bad = 'a path asks no driver for anything and returns %s (only the refusal of an unusable auxiliary window, a negative code, may do that)' % (fmt(p.ret) if p.ret else None)
+                    break
+                continue
             if len(g) != 1:
                 bad = 'expected exactly one source_get_chunk_atmost'
                 break
             gptr, gcnt = g[0].args[1], g[0].args[2]
+            # a step asks for at least one octet: a request for nothing is answered with "nothing moved", which the counted
+            # and the draining loops take for "ask again" - with an auxiliary window that holds no octet they never return
+            if not eng2.entails(facts + ([Lin.const(1) - L(('v', 'n'))] if fn == 'sts_atmost_aux' else []), Lin.const(1) - L(gcnt)):
+                bad = ('asks the source for %s octets, which is 0 for an auxiliary buffer whose window [offset, used) is empty (e.g. one declared with BYTE_BUFFER_EMPTY): '
+                       'nothing moves, the step answers 0, and sts_n_aux / sts_drain_aux repeat it for ever' % fmt(gcnt))
+                break
             # region: [data+offset, data+offset+cnt) inside the unread window [offset, used)
             o = L(gptr) - L(data)
             if not (eng2.entails(facts, L(off) - o) and eng2.entails(facts, o + L(gcnt) - L(used))):
